@@ -24,6 +24,8 @@ func runC18(c *engine.Ctx, tier string) {
 	for _, rel := range []string{pkgTreeV2, pkgTreeV3} {
 		listEntryFacts(c, "C18.3/"+strings.TrimPrefix(rel, "pkg/utils/"), rel)
 	}
+	// the tree is built from the tokenizer's elements only: a key value may contain '/'
+	oneTokenizerIn(c, "C18.4", []string{pkgTreeV2, pkgTreeV3}, 2)
 }
 
 func listEntryFacts(c *engine.Ctx, id, rel string) {
